@@ -29,6 +29,29 @@ DST = [('America/New_York', datetime.date(2021, 3, 14)), ('America/New_York', da
        ('Australia/Lord_Howe', datetime.date(2021, 4, 4)), ('Australia/Lord_Howe', datetime.date(2021, 10, 3))]
 
 
+def sources(r, today, layout, fmt):
+    """the current date and the date format reach the program from the command line, the environment or the configuration file:
+    (global flags, environment, configuration) for one of the combinations"""
+    gf, env, entries = {}, {}, {}
+    if r.random() < 0.3:
+        entries['Now'] = '%04d-%02d-%02dT00:00:00Z' % (today.year, today.month, today.day)
+    else:
+        gf['today'] = fmt(today)
+    if layout != '2006/01/02':
+        src = r.choice(['flag', 'flag', 'env', 'cfg'])
+        if src == 'flag':
+            gf['dateFormat'] = layout
+        elif src == 'env':
+            env['dateFormat'] = layout
+        else:
+            entries['DateFormat'] = layout
+    cfg = None
+    if entries:
+        cfg = {'where': 'flag', 'path': 'my.cfg', 'exists': True, 'entries': entries}
+        gf['config'] = 'my.cfg'
+    return gf, env, cfg
+
+
 def render(g, log, layout):
     return g.render_log(log, layout=layout, varied=False)
 
@@ -105,13 +128,14 @@ def gen(g, nlogs, tier):
             today = r.choice(DAYS[2:5]) if delta >= 7 else r.choice(DAYS[1:5])
             bound = today - datetime.timedelta(days=delta)
             for which in ('begin', 'end'):
-                tz = r.choice(TZS)
-                gf = {'today': fmt(today)}
-                if layout != '2006/01/02':
-                    gf['dateFormat'] = layout
+                tz = r.choice(TZS + ['Europe/Berlin', 'Asia/Tokyo', 'Pacific/Pago_Pago'])
+                gf, env_, cfg_ = sources(r, today, layout, fmt)
                 kept = [(d, ents, ns) for d, ents, ns in log if (d >= bound if which == 'begin' else d <= bound)]
-                a = app(['csv', 'log'], {b'food.yaml': bookfile, b'log.yaml': render(g, log, layout)}, g=dict(gf, **{which: kw}), kind='csv log kw:' + kw, tz=tz, today_date=today)
-                k = app(['csv', 'log'], {b'food.yaml': bookfile, b'log.yaml': render(g, kept, layout)}, g=gf, kind='csv log (deleted)', tz=tz, today_date=today)
+                a = app(['csv', 'log'], {b'food.yaml': bookfile, b'log.yaml': render(g, log, layout)}, g=dict(gf, **{which: kw}), env=env_, cfg=cfg_, disk=cfg_ is not None, kind='csv log kw:' + kw, tz=tz, today_date=today)
+                k = app(['csv', 'log'], {b'food.yaml': bookfile, b'log.yaml': render(g, kept, layout)}, g=gf, env=env_, cfg=cfg_, disk=cfg_ is not None, kind='csv log (deleted)', tz=tz, today_date=today)
+                if cfg_ and 'Now' in cfg_['entries']:
+                    a.g.pop('today', None)          # (the helper adds a default --today, which would win over the configuration file)
+                    k.g.pop('today', None)
                 a.meta.update({'pair': k, 'b': kw, 'e': which, 'pos': 'global', 'log': log, 'kept_days': kept, 'layout': layout})
                 cases += [a, k]
         # a bound that is not a date (another numeric layout, an impossible calendar date) is an error, never "no bound"
@@ -186,9 +210,7 @@ def gen(g, nlogs, tier):
             for arg, today in ((fmt(d), datetime.date(2021, 1, 28)), ('today', d), ('yesterday', d + datetime.timedelta(days=1))):
                 # the day window of `summary` is built in the process zone: offsets near the ends of the day matter most
                 tz = r.choice(TZS + ['Etc/GMT+1', 'Etc/GMT+1', 'Etc/GMT-1', 'Etc/GMT+12', 'Etc/GMT-14', 'Asia/Kolkata'])
-                gf = {'today': fmt(today)}
-                if layout != '2006/01/02':
-                    gf['dateFormat'] = layout
+                gf, env_, cfg_ = sources(r, today, layout, fmt)
                 kept = [(dd, ents, ns) for dd, ents, ns in log if dd == d]
                 ga = dict(gf)
                 if r.random() < 0.4:
@@ -197,9 +219,12 @@ def gen(g, nlogs, tier):
                         ga['begin'] = r.choice([fmt(r.choice(DAYS)), 'last7', 'yesterday'])
                     if r.random() < 0.7:
                         ga['end'] = r.choice([fmt(r.choice(DAYS)), 'today', 'yesterday'])
-                a = app(['summary'], {b'food.yaml': bookfile, b'log.yaml': render(g, log, layout)}, args=(arg,), g=ga, kind='summary', tz=tz, today_date=today)
+                a = app(['summary'], {b'food.yaml': bookfile, b'log.yaml': render(g, log, layout)}, args=(arg,), g=ga, env=env_, cfg=cfg_, disk=cfg_ is not None, kind='summary', tz=tz, today_date=today)
                 # summary of the file that holds only that day, asked for the same day
-                k = app(['summary'], {b'food.yaml': bookfile, b'log.yaml': render(g, kept, layout)}, args=(arg,), g=gf, kind='summary (deleted)', tz=tz, today_date=today)
+                k = app(['summary'], {b'food.yaml': bookfile, b'log.yaml': render(g, kept, layout)}, args=(arg,), g=gf, env=env_, cfg=cfg_, disk=cfg_ is not None, kind='summary (deleted)', tz=tz, today_date=today)
+                if cfg_ and 'Now' in cfg_['entries']:
+                    a.g.pop('today', None)
+                    k.g.pop('today', None)
                 a.meta.update({'pair': k, 'b': arg, 'e': 'summary', 'pos': 'arg', 'log': log, 'summary_day': d, 'kept': kept, 'kept_days': kept, 'layout': layout})
                 cases += [a, k]
     return cases
@@ -243,6 +268,9 @@ def judge(ctx, cases, impl):
             if got is not None and got != want:
                 ctx.problem('oracle', '`%s` under TZ=%s does not show the dates of the selected days as they are written in the log' % (c.meta['kind'], c.tz), c,
                             {'dates_shown': repr(got)[:600], 'dates_of_selected_days': repr(want)[:600], 'out': out_of(i).decode('utf-8', 'replace')[:600]}, signature='printed-dates')
+        if c.meta['kind'] == 'summary' and i.get('status') != 'ok' and i.get('status') in ('err', 'panic', 'crash'):
+            ctx.problem('oracle', '`summary %s` fails although the argument is a date in the date format in force (or a keyword): %s' % (
+                c.meta['b'], unhx(i.get('text', '') or '').decode('utf-8', 'replace')[:200]), c, {'class': i.get('class')}, signature='summary-fails')
         if c.meta['kind'] == 'summary' and i.get('status') == 'ok':
             # exactly that calendar day: one block per heading of that date
             n_blocks = out_of(i).count(b'------------\n')
@@ -267,8 +295,14 @@ def run(ctx):
     n = 0
     for c in sub:
         for tz in TZS:
-            rc, out, err = core.run_real_binary(binary, c.argv(), c.files, tz=tz)
-            rc2, out2, err2 = core.run_real_binary(binary, c.meta['pair'].argv(), c.meta['pair'].files, tz=tz)
+            def real(x):
+                from ..appcase import ENV_NAMES
+                files = dict(x.files)
+                if x.cfg and x.cfg.get('exists'):
+                    files[x.cfg['path'].encode()] = x.config_text()
+                return core.run_real_binary(binary, x.argv(), files, tz=tz, env_extra={ENV_NAMES[k_]: str(v) for k_, v in x.env.items()})
+            rc, out, err = real(c)
+            rc2, out2, err2 = real(c.meta['pair'])
             n += 2
             if (rc, core.canon_out(out)) != (rc2, core.canon_out(out2)):
                 ctx.problem('oracle', 'real binary, TZ=%s: `%s` with its period differs from the log with the other days deleted' % (tz, c.meta['kind']), c,
